@@ -186,6 +186,7 @@ class Sim:
         self.unbound = []          # (ctx, node, name, function): process global assigned without `global`
         self.relem_uses = []       # (ctx, node): a value yielded by the result iterator handed to a call
         self.allframes = {}
+        self.entry_params = set()
         self.loops = []
         self.overlaps = []         # (ctx, node, text): a read whose overlap with an earlier store could not be decided
         self.unbound_locals = []   # (ctx, node, name, function)
@@ -1098,6 +1099,8 @@ class Sim:
                 self.none_uses.append((self.ctx, t, "store into None"))
             elif any(is_tag(x, "unboundlocal", "oob") for x in subterms(base)):
                 pass        # already recorded: the statement raises
+            elif self._undefined_root(t.value, fr) is not None:
+                self.unbound_locals.append((self.ctx, t, self._undefined_root(t.value, fr), fr.fn.name))      # NameError
             else:
                 raise Unsup(f"store into `{ast.unparse(t.value)}` whose value is not a tracked object")
         elif isinstance(t, ast.Attribute):
@@ -1106,6 +1109,15 @@ class Sim:
                 raise Unsup("attribute store in the parent")
         else:
             raise Unsup(f"assignment target {type(t).__name__}")
+
+    def _undefined_root(self, node, fr):
+        """name at the root of `node` when it is defined nowhere (not a local, parameter, module name or builtin): NameError at run time"""
+        while isinstance(node, (ast.Subscript, ast.Attribute)):
+            node = node.value
+        if isinstance(node, ast.Name) and node.id not in fr.local_names and node.id not in fr.globals_decl and \
+                self.lookup_module(node.id, fr.rel, record=False) == ("s", node.id):
+            return node.id
+        return None
 
     def simple_if(self, st, fr):
         mi = self.world.mods[fr.rel]
